@@ -297,6 +297,85 @@ def discard(sc):
             'secs10': int((time.monotonic() - t0) * 10)}
 
 
+def signal_one(sc):
+    """one worker gets the termination signal -- from terminate_job() while it runs a task, or from
+    an operator while it is idle -- with an exit callback that takes 0.3 s: the callback completes,
+    the worker goes, the pool is refilled and serves the next job"""
+    d = tempfile.mkdtemp(prefix='s-', dir=SCRATCH)
+    log = os.path.join(d, 'exitlog')
+    os.environ['VERIF_EXIT_LOG'] = log
+    pool = bp.Pool(2, on_process_exit=targets.slow_exit_marker)
+    time.sleep(0.5)
+    res = {'kind': 'signal_one'}
+    if sc['target'] == 'busy':
+        mark = os.path.join(d, 'pid')
+        h = pool.apply_async(targets.announce_and_block, (mark, 60))
+        victim = _wait_file(mark)
+        time.sleep(0.2)
+        pool.terminate_job(victim)
+        o = _outcome(h, 10)
+        res['job_outcome'] = o[1] if o[0] == 'exc' else o[0]
+    else:
+        busy = pool.apply_async(targets.pid_task, (0, 1.0))      # keeps one worker busy: the other is idle
+        time.sleep(0.3)
+        victim = [w.pid for w in pool._pool if w.pid not in busy.worker_pids()][0]
+        os.kill(victim, signal.SIGTERM)
+        res['job_outcome'] = 'Terminated'
+        _outcome(busy, 10)
+    res['gone10'] = int(_gone(victim, 6) * 10)
+    time.sleep(0.6)
+    try:
+        lines = open(log).read().split('\n')
+    except OSError:
+        lines = []
+    res['callback_began'] = ('%d begin' % victim) in lines
+    res['callback_ended'] = ('%d end' % victim) in lines
+    time.sleep(1.0)
+    res['pool_size'] = len([w for w in pool._pool if w._is_alive()])
+    res['next_ok'] = _outcome(pool.apply_async(targets.pid_task, (5,)), 10)[0] == 'ok'
+    return res
+
+
+def term_repop(sc):
+    """terminate() arrives while the supervisor is in the middle of replacing several recycled
+    workers (a slow on_process_up hook stretches the round): it returns, nothing of the pool stays"""
+    n = 4
+    seen = set()
+    pool = bp.Pool(n, maxtasksperchild=1)
+    for w in pool._pool:
+        seen.add(w.pid)
+
+    def up(w):
+        seen.add(w.pid)
+        time.sleep(0.3)
+    pool.on_process_up = up
+    hs = [pool.apply_async(targets.pid_task, (i, 0.05)) for i in range(n)]
+    for h in hs:
+        _outcome(h, 10)
+    first = set(seen)
+    t0 = time.monotonic()
+    while time.monotonic() - t0 < 10 * SCALE and len(seen) == len(first):
+        time.sleep(0.01)                  # the first replacement has been started
+    done = []
+    th = threading.Thread(target=lambda: (pool.terminate(), done.append(1)), daemon=True)
+    t1 = time.monotonic()
+    th.start()
+    th.join(15 * SCALE)
+    res = {'kind': 'term_repop', 'returned': bool(done), 'secs10': int((time.monotonic() - t1) * 10),
+           'replacements_started': len(seen) - len(first)}
+    time.sleep(1.5)                       # a supervisor that goes on forking would show now
+    alive = 0
+    for pid in list(seen):
+        try:
+            st = open('/proc/%d/stat' % pid).read().split(') ')[-1].split()[0]
+            alive += st != 'Z'
+        except OSError:
+            pass
+    res['alive'] = alive
+    res['forked_after'] = len(seen) - len(first) - res['replacements_started']
+    return res
+
+
 def _progress(res, sc):
     res = dict(res, scenario=sc)
     with open(os.path.join(SCRATCH, 'RESULT.tmp'), 'w') as fh:
@@ -403,7 +482,8 @@ def recycle(sc):
 def main():
     sc = json.loads(sys.argv[1])
     fn = {'loss': loss, 'hard': hard, 'hard_map': hard_map, 'soft': soft, 'sendfail': sendfail,
-          'recycle': recycle, 'idleloss': idleloss, 'discard': discard, 'budget': budget}[sc['kind']]
+          'recycle': recycle, 'idleloss': idleloss, 'discard': discard, 'budget': budget,
+          'signal_one': signal_one, 'term_repop': term_repop}[sc['kind']]
     res = fn(sc)
     res['scenario'] = sc
     with open(os.path.join(SCRATCH, 'RESULT.tmp'), 'w') as fh:
